@@ -75,6 +75,13 @@ def F4():
     return rejects(lambda: setattr(a, 'predecessors', [c])) and rejects(lambda: setattr(a, 'successors', [c]))
 
 
+def F35():
+    """C01: dependency cycle accepted when another task with the same id hides the task in all_predecessors"""
+    a, b, x = Task(1), Task(2), Task(1)
+    b.predecessors = [x, a]
+    return rejects(lambda: setattr(a, 'predecessors', [b]))
+
+
 # ---------------------------------------------------------------- C05
 def F5():
     """C05: id uniqueness is only checked inside one top-level branch of a WBS"""
@@ -439,7 +446,7 @@ def F34c():
     return run(datetime(2025, 1, 6)) == run(datetime(2026, 1, 5))
 
 
-ALL = [F1, F2, F3, F4, F5, F6, F7, F8, F9, F10, F11, F13, F14, F14b, F15, F16, F17, F19, F20, F21, F22, F23, F24,
+ALL = [F1, F2, F3, F4, F35, F5, F6, F7, F8, F9, F10, F11, F13, F14, F14b, F15, F16, F17, F19, F20, F21, F22, F23, F24,
        F25, F26, F27, F28, F30, F33, F34, F34b, F34c]
 
 if __name__ == '__main__':
